@@ -1,6 +1,7 @@
 """props.py: per-property configuration of ./check"""
 
-GENERATORS = ['gen.py', 'gen_deps.py', 'gen_files.py', 'gen_units.py']
+GENERATORS = ['gen.py', 'gen_deps.py', 'gen_files.py', 'gen_units.py', 'gen_pumps.py']
+CORE_GENERATORS = ['gen.py', 'gen_deps.py', 'gen_files.py', 'gen_units.py']     # gen_pumps.py feeds C11 only
 
 PROPS = {
     'C01': dict(
@@ -176,13 +177,19 @@ PROPS = {
                    'hydraulic_gradient (three lists) and with the state after the call.',
     ),
     'C11': dict(
-        own_files=['Lemmas/LC11.v', 'Lemmas/LC11b.v', 'Lemmas/LC11c.v', 'Props/C11.v'],
-        corr=[dict(script='corr_pump.py', n=250, n_thorough=6000)],
+        own_files=['Lemmas/LC11.v', 'Lemmas/LC11b.v', 'Lemmas/LC11c.v', 'Lemmas/LPumpShape.v', 'Lemmas/LPumpsShipped.v', 'Props/C11.v'],
+        generators=GENERATORS, extra_sources=['DHLLDV_viewer/ExamplePumps.py'],
+        corr=[dict(script='corr_pump.py', n=250, n_thorough=6000), dict(script='corr_pumpdata.py', n=1, n_thorough=1)],
         search='C11.py', budget_quick=400, budget_thorough=20000,
         partial=['C11 never above the set speed in torque and power mode: PROVED (C11_power/torque_limited_not_above_set) for every pump and flow '
                  'whose required power is positive, does not fall with speed and grows at most like n^4 relative to the available power on '
                  '(0, set speed] -- a premise on the elasticity of the QP curve, which the search samples on the shipped pumps and counts '
-                 '(shape-premise:holds / fails in the distribution); where it fails the clause is searched only',
+                 '(shape-premise:holds / fails in the distribution); where it fails the clause is searched only.  For the power-limited mode the '
+                 'premise is DISCHARGED for every pump whose QP table has increasing positive powers with elasticity <= 3 at each segment start '
+                 '(C11_power_limited_not_above_set_by_shape), and by computation on the regenerated data for the shipped Ladder_Pump and '
+                 'Main_Pump at every flow, trim, speed, density and nameplate power (C11_shipped_pumps); Ladder_Pump600 and Main_Pump500 do '
+                 'not have that shape (their tabulated power falls from shut-off to the first positive flow) and torque mode needs elasticity <= 2, '
+                 'which the shipped curves exceed near their top end',
                  'C11 termination of the torque / power iteration: PROVED (C11_limited_search_terminates) under a strict shape premise -- ln of the '
                  'headroom ratio Pavail/P falls by at least delta and at most 4 - delta per unit of ln n on (0, set speed], the required power is '
                  'bounded and the floor n0 q(n0)^(1/delta) is above 1/60 Hz: the map is a contraction on the logarithmic scale; the search samples '
